@@ -7,7 +7,34 @@ TS_METHODS = ["Init", "Front", "Back", "PushFront", "PushBack", "Remove", "Inser
               "Range", "RangeReverse", "Values", "Len"]
 
 
+def goroot():
+    rc, out = checklib.sh(["go", "env", "GOROOT"], cwd=checklib.HARNESS, timeout=60)
+    return out.strip().split("\n")[-1].strip()
+
+
+def regen_code(ctx):
+    """Hive/Gen/C10_Code.lean: every function of the inner list / element of ds/list_impl.go AND of GOROOT's container/list
+    translated (harness/c10/xlate, go/ast) into the statement language of Hive/Model/DListIR.lean, plus the delegation
+    table of the thread-safe wrapper and the constructors.  Props/C10.lean proves the hand-written model equal to the
+    meaning of the translated code (C10_code_*)."""
+    out = os.path.join(checklib.LEAN, "Hive", "Gen", "C10_Code.lean")
+    tmp = os.path.join(ctx.scratch, "C10_Code.lean")
+    rc, log = checklib.sh(["go", "run", "./c10/xlate", tmp, "Hive.Gen.C10Code", os.path.join(ctx.repo, "ds/list_impl.go"),
+                           os.path.join(goroot(), "src/container/list/list.go")], cwd=checklib.HARNESS, timeout=600)
+    if rc != 0 or not os.path.exists(tmp):
+        return [{"kind": "code-translator", "detail": checklib.tail(log, 20)}]
+    checklib.write_gen(ctx, out, open(tmp).read())
+    if "xlate:" in log:
+        # the code left the fragment the translator understands; the obligation C10_code_translated fails as well
+        ctx.notes.append("xlate: " + checklib.tail(log, 5))
+    return []
+
+
 def regen(ctx):
+    return regen_skel(ctx) + regen_code(ctx)
+
+
+def regen_skel(ctx):
     """Synchronisation skeleton of every method of the thread-safe wrapper (one lock / deferred unlock around exactly
     one call of the inner list's method of the same name) plus the shapes of the three types."""
     reqs = ["ds/list_impl.go:threadSafeList." + m for m in TS_METHODS]
@@ -22,6 +49,8 @@ SPEC = {
     "driver": "drv_c10",
     "harness": "c10",
     "theorems": ["C10_wf_preserved", "C10_refines", "C10_refines_run", "C10_foreign_noop", "C10_neighbours",
+                 "C10_code_translated", "C10_code_same_as_container_list", "C10_code_is_model", "C10_code_is_container_list",
+                 "C10_code_observers", "C10_code_refines_run", "C10_container_list_meets_spec", "C10_code_wrappers",
                  "C10_skeleton_writers", "C10_skeleton_readers", "C10_skeleton_pushlists", "C10_skeleton_type_shapes"],
     "trusted_base": [
         "hand-written pointer-level model Hive/Model/DList.lean of ds/list_impl.go, tied by differential execution (harness/c10)",
